@@ -4,23 +4,26 @@ From Dwgrep Require Import Forest ForestProofs ChildIter.
 Import ListNotations.
 Import ForestM ChildIterM.
 
+Section Generic.
+Variable into : die -> list die.
+
 (* imports nest at most n deep below these DIEs *)
 Fixpoint fits (n : nat) (f : forest) (kids : list die) : Prop :=
   Forall (fun k => match import_target f k with
-                   | Some t => match n with O => False | S m => fits m f (d_kids t) end
+                   | Some t => match n with O => False | S m => fits m f (into t) end
                    | None => True
                    end) kids.
 
 Lemma fits_cons n f k ks : fits n f (k :: ks) <->
-  (match import_target f k with Some t => match n with O => False | S m => fits m f (d_kids t) end | None => True end) /\ fits n f ks.
+  (match import_target f k with Some t => match n with O => False | S m => fits m f (into t) end | None => True end) /\ fits n f ks.
 Proof. destruct n; cbn [fits]; split; intros H; [inversion H; subst; split; assumption|destruct H; constructor; assumption|inversion H; subst; split; assumption|destruct H; constructor; assumption]. Qed.
 
-Lemma expand_cons n f k ks c : expand n f (k :: ks) c =
-  (match import_target f k with Some t => match n with O => [] | S m => expand m f (d_kids t) (d_off k :: c) end | None => [(k, c)] end) ++ expand n f ks c.
+Lemma expand_cons n f k ks c : expand into n f (k :: ks) c =
+  (match import_target f k with Some t => match n with O => [] | S m => expand into m f (into t) (d_off k :: c) end | None => [(k, c)] end) ++ expand into n f ks c.
 Proof. destruct n; reflexivity. Qed.
 
 Lemma run_range f : forall n l st c, fits n f l ->
-  exists w, forall e, run (w + e) f (l :: st) c = expand n f l c ++ run e f st (tl c).
+  exists w, forall e, run into (w + e) f (l :: st) c = expand into n f l c ++ run into e f st (tl c).
 Proof.
   induction n as [|m IHn]; induction l as [|k ks IHl]; intros st c F.
   - exists 1%nat. intros e. reflexivity.
@@ -32,25 +35,26 @@ Proof.
   - apply fits_cons in F. destruct F as [Fk Fks].
     destruct (IHl st c Fks) as [w2 H2].
     destruct (import_target f k) as [t|] eqn:T.
-    + destruct (IHn (d_kids t) (ks :: st) (d_off k :: c) Fk) as [w1 H1].
+    + destruct (IHn (into t) (ks :: st) (d_off k :: c) Fk) as [w1 H1].
       exists (S (w1 + w2)). intros e. cbn [plus run]. rewrite T.
       rewrite <- Nat.add_assoc, H1. cbn [tl]. rewrite H2, expand_cons, T, <- app_assoc. reflexivity.
     + exists (S w2). intros e. cbn [plus run]. rewrite T, H2, expand_cons, T. reflexivity.
 Qed.
 
-Lemma run_nil f e c : run e f [] c = [].
+Lemma run_nil f e c : run into e f [] c = [].
 Proof. destruct e; reflexivity. Qed.
+End Generic.
 
 (* `child` in cooked mode: for every DIE below which imports nest at most n deep, and any fuel from some point on *)
-Theorem children_are_the_expansion f n d : fits n f (d_kids d) ->
-  exists w, forall e, children (w + e) f d = expand n f (d_kids d) [].
+Theorem children_are_the_expansion f n d : fits d_kids n f (d_kids d) ->
+  exists w, forall e, children (w + e) f d = expand d_kids n f (d_kids d) [].
 Proof.
-  intros F. destruct (run_range f n (d_kids d) [] [] F) as [w H]. exists w. intros e.
+  intros F. destruct (run_range d_kids f n (d_kids d) [] [] F) as [w H]. exists w. intros e.
   unfold children. rewrite H, run_nil, app_nil_r. reflexivity.
 Qed.
 
 (* the DIEs handed out are the model's cooked children (Forest.cooked_kids), in that order *)
-Lemma expand_is_cooked_kids f : forall n l c, map fst (expand n f l c) = cooked_kids (S n) f l.
+Lemma expand_is_cooked_kids f : forall n l c, map fst (expand d_kids n f l c) = cooked_kids (S n) f l.
 Proof.
   induction n as [|m IH]; intros l c; induction l as [|k ks IHl]; try reflexivity.
   - rewrite expand_cons, map_app, IHl. cbn [cooked_kids flat_map]. destruct (import_target f k); reflexivity.
@@ -59,8 +63,17 @@ Proof.
     destruct (import_target f k) as [t|]; [rewrite IH|]; reflexivity.
 Qed.
 
-Corollary children_are_cooked_kids f n d : fits n f (d_kids d) ->
+Corollary children_are_cooked_kids f n d : fits d_kids n f (d_kids d) ->
   exists w, forall e, map fst (children (w + e) f d) = cooked_kids (S n) f (d_kids d).
 Proof.
   intros F. destruct (children_are_the_expansion f n d F) as [w H]. exists w. intros e. rewrite H. apply expand_is_cooked_kids.
+Qed.
+
+(* `entry` on a unit in cooked mode: all DIEs of the unit in section order, every import replaced in place by all the
+   DIEs of the imported unit but its root, recursively, with the chain of imports *)
+Theorem entries_are_the_expansion f n r : fits rest_of_unit n f (preorder r) ->
+  exists w, forall e, entries (w + e) f r = expand rest_of_unit n f (preorder r) [].
+Proof.
+  intros F. destruct (run_range rest_of_unit f n (preorder r) [] [] F) as [w H]. exists w. intros e.
+  unfold entries. rewrite H, run_nil, app_nil_r. reflexivity.
 Qed.
